@@ -217,7 +217,10 @@ class Finding:
         return True
 
     def entry(self):
-        return {'id': self.id, 'property': PROP, 'site': self.site, 'predicate': self.predicate, 'what': self.what}
+        e = {'id': self.id, 'property': PROP, 'site': self.site, 'predicate': self.predicate, 'what': self.what}
+        if self.id in REPLAYS:
+            e['replay'] = json.dumps({'e': REPLAYS[self.id][0], 't': REPLAYS[self.id][1]})
+        return e
 
 
 def _sp_quoted(case, res, f):
@@ -243,18 +246,14 @@ FINDINGS = [
             tag='detached-postfix'),
     Finding('C01-nested-unary-plus', 'reparse|same-ast', f'{CG}::visit_UnaryOp',
             'the tree contains UnaryOp(+, UnaryOp(+, _))', '`+ +x` prints `++x`, which lexes as the concatenation operator',
-            feat='nested-unary-plus'),
+            feat='nested-unary-plus', printed=r'\+\+'),
     Finding('C01-typecast-required', 'same-ast', f'{CG}::visit_TypeCast',
             'TypeCast with cardinality_mod = Required', '`<required T>x` prints `<T>x` (only `optional` is printed)',
             sig=r'TypeCast\.cardinality_mod\|str>None'),
-    Finding('C01-bytes-backslash', 'reparse|same-ast|idem|mode-tokens', f'{CG}::_BYTES_ESCAPE_RE / visit_BytesConstant',
-            'a bytes literal whose value contains the byte 0x5c (backslash)',
-            'the escape class is written b"[\\\\\\\'...]" which as a regex is an escaped quote, so a backslash byte is printed unescaped: rb\'a\\b\' prints b\'a\\b\' (= a, backspace); b\'\\\\\' prints b\'\\\' (unterminated)',
-            feat='bytes-backslash'),
     Finding('C01-param-backtick', 'same-ast|reparse', 'edb/edgeql/parser/grammar/expressions.py::Constant.reduce_PARAMETER + codegen.param_to_str',
             'a query parameter written with backticks ($`name`)',
             'the parser keeps the backticks in Parameter.name; the printer quotes them again ($```name```)',
-            feat='param-backtick'),
+            feat='param-backtick', printed=r'\$```'),
     Finding('C01-for-optional', 'same-ast', f'{CG}::visit_ForQuery', 'ForQuery with optional = true',
             '`FOR OPTIONAL x IN ...` is printed without OPTIONAL', sig=r'ForQuery\.optional\|True>False'),
     Finding('C01-for-iterator-parens', 'reparse', f'{CG}::visit_ForQuery',
@@ -266,7 +265,7 @@ FINDINGS = [
             sig=r'TypeName\.subtypes\[\]/(TypeOp|TypeOf)\.name\|str>None'),
     Finding('C01-alter-empty-body', 'reparse', f'{CG}::_visit_AlterObject',
             'an ALTER command with an empty command block `{ }`', 'printed with no body at all (`alter role x;`), which the grammar rejects',
-            feat='alter-empty'),
+            feat='alter-empty', printed=r'\balter\s[^{};]*(;|$)'),
     Finding('C01-partial-reserved-bare', 'reparse|same-ast', 'edb/edgeql/quote.py::needs_quoting (only RESERVED_KEYWORD is consulted)',
             'an identifier `union`, `except` or `intersect` (partial reserved keywords) that the input had to quote',
             'printed bare; in expression position the parser reads the keyword',
@@ -317,13 +316,13 @@ FINDINGS = [
             'newlines of the verbatim text are followed by the closing brace on the same line in compact mode, so the comment swallows `}`',
             feat='nested-ql-block', printed=r'#', modes=r'compact'),
     Finding('C01-splat-type-expr', 'reparse|same-ast', f'{CG}::visit_Splat', 'a splat `T.*` / `T.**` whose type is a parenthesised type expression or carries a type intersection',
-            'the type expression is printed bare (`TYPEOF x[is T].**`)', feat='splat-typed'),
+            'the type expression is printed bare (`TYPEOF x[is T].**`)', feat='splat-typed', printed=r'\.\*'),
     Finding('C01-function-using-sql-expression', 'reparse', f'{CG}::visit_FunctionCode', 'CREATE FUNCTION ... { USING SQL EXPRESSION }',
             'printed `using sql` with nothing after it', printed=r'using sql\s*;'),
     Finding('C01-for-group-internal', 'reparse|same-ast', f'{CG}::visit_InternalGroupQuery',
             'the text uses the internal `FOR GROUP ... USING ... BY ... IN ... UNION` form (InternalGroupQuery)',
             'result_alias is never printed; `union <expr> order by` is printed without the parentheses / separators the grammar needs',
-            feat='internal-group'),
+            feat='internal-group', printed=r'for\s+group'),
     Finding('C01-alias-empty-body', 'reparse', f'{CG}::visit_CreateAlias / _visit_CreateObject',
             'SDL/DDL alias declared with an empty block (`alias Foo { }`), which the parser accepts',
             'printed `alias Foo;`, which the grammar rejects', printed=r'\balias\s+[^\s;{(]+\s*;'),
@@ -339,32 +338,77 @@ FINDINGS = [
             'DESCRIBE OBJECT <name>, DESCRIBE ... CONFIG statements',
             'printed as `describe <name> as DDL` / `describe DATABASE CONFIG as DDL`: rejected, or read back as DESCRIBE SCHEMA/ROLES',
             printed=r'(^|;)\s*describe\b'),
-    Finding('C01-pointer-bases-in-body', 'reparse', f'{CG}::_ddl_add_pointer_bases', 'DDL (not SDL) `CREATE PROPERTY/LINK p EXTENDING b -> T`',
-            'the bases are moved into the body as `extending b;`, which the DDL grammar rejects there', printed=r'\{\s*extending\b'),
     Finding('C01-typeof-bare', 'reparse|same-ast', f'{CG}::visit_TypeOf', 'a TYPEOF type expression inside a cast `<...>`, in collection subtypes / base type arguments, or as the target type of a pointer / global',
             'printed bare: `<TYPEOF x>y` reads `>` as greater-than; `create link l: TYPEOF x { ... }` reads the block as a shape',
-            feat='typeof-in-type-context'),
+            feat='typeof-in-type-context', printed=r'typeof'),
     Finding('C01-overloaded-optional', 'same-ast', f'{CG}::visit_CreateConcretePointer', 'SDL `overloaded optional <pointer>`',
             'OPTIONAL is not printed after OVERLOADED', sig=r'is_required\|False>None'),
-    Finding('C01-dollar-quote-tail', 'reparse|same-ast', 'edb/edgeql/quote.py::dollar_quote_literal (C18 finding) via visit_Constant / visit_FunctionCode',
-            'a string (constant, or USING SQL code) that ends with `$` and is printed dollar-quoted', 'prints `$$...$$$`; the lexer chokes on the trailing `$`',
-            feat='string-dollar-tail'),
-    Finding('C01-string-bidi', 'reparse', f'{CG}::visit_Constant (C18 finding)', 'a string constant containing a bidi control character (U+202A-202E, U+2066-2069)',
-            'written verbatim; the lexer rejects these characters', feat='string-bidi'),
-    Finding('C01-string-c1', 'reparse', f'{CG}::visit_Constant repr() fallback (C18 finding)', 'a string constant containing a C1 control character (U+0080-009F)',
-            'printed via repr() as \\x85-style escapes, which the lexer rejects', feat='string-c1'),
     Finding('C01-operator-code-from-function', 'same-ast', f'{CG}::visit_OperatorCode', 'CREATE OPERATOR ... USING SQL FUNCTION',
             'from_function is printed as `using sql operator`', sig=r'OperatorCode\.from_function'),
     Finding('C01-cast-code', 'same-ast', f'{CG}::visit_CastCode', 'CREATE CAST with both USING SQL FUNCTION and USING SQL <code>', 'the code is dropped',
             sig=r'CastCode\.code\|str>None'),
     Finding('C01-update-empty-set', 'reparse', f'{CG}::visit_UpdateQuery / _visit_shape', 'UPDATE x SET { } (empty shape)',
-            'printed `update x set ` with no braces', feat='update-empty-set'),
+            'printed `update x set ` with no braces', feat='update-empty-set', printed=r'\bset\s*(;|\)|,|$)'),
     Finding('C01-sdl-constraint-on-without-params', 'same-ast', 'edb/edgeql/parser/grammar/sdl.py (abstract constraint without parameter list ignores ON (...)) + codegen.visit_CreateConstraint (empty parameter list not printed)',
             'SDL `abstract constraint c() on (expr)` with an empty parameter list',
             'printed without `()`; the SDL production without a parameter list discards the ON expression', sig=r'CreateConstraint\.subjectexpr\|.*>None'),
     Finding('C01-config-insert-empty-shape', 'reparse', f'{CG}::visit_ConfigInsert', 'CONFIGURE ... INSERT T { } (empty shape)',
-            'printed `configure SESSION insert T;` with no braces', printed=r'configure\s+[^;]*\binsert\s+[^\s;{]+\s*;'),
+            'printed `configure SESSION insert T;` with no braces', printed=r'configure\s+[^;]*\binsert\s+(?:`[^`]*`|[^\s;{]+)\s*;'),
 ]
+
+
+# one minimal input per finding: replayed first on every run (so a finding that stops reproducing is
+# noticed) and quoted in the proposed known_findings.json entries
+REPLAYS = {
+    'C01-prefix-left-operand': ('fragment', '(-5) ^ 2'),
+    'C01-shape-on-prefix': ('fragment', '(<T>x) {a}'),
+    'C01-detached-postfix': ('fragment', 'DETACHED (x.y)'),
+    'C01-nested-unary-plus': ('fragment', '+ +x'),
+    'C01-typecast-required': ('fragment', '<required T>x'),
+    'C01-param-backtick': ('fragment', '$`select`'),
+    'C01-for-optional': ('fragment', 'FOR OPTIONAL x IN {1} UNION x'),
+    'C01-for-iterator-parens': ('block', 'FOR x IN <a>(<optional b>(y)) UNION x'),
+    'C01-subtype-label': ('fragment', '<tuple<a: T | U>>x'),
+    'C01-alter-empty-body': ('block', 'ALTER ROLE r { }'),
+    'C01-partial-reserved-bare': ('block', 'SELECT `union`.age'),
+    'C01-quoted-ident-bare': ('block', 'DECLARE SAVEPOINT `my name`'),
+    'C01-dunder-ident-quoted': ('block', 'DROP DATABASE __edgedbtpl__'),
+    'C01-cast-from-space': ('block', 'DROP CAST FROM std::BaseObject TO std::json'),
+    'C01-index-match-for-space': ('block', 'CREATE INDEX MATCH FOR std::str USING pg::brin'),
+    'C01-config-reset-filter-space': ('block', 'CONFIGURE INSTANCE RESET Foo FILTER .bar = 2'),
+    'C01-no-printer': ('block', 'ADMINISTER foo()'),
+    'C01-sorted-body-itemclass': ('sdl', 'type default::Foo { property p: str { constraint exclusive; } }'),
+    'C01-create-database-template': ('block', 'CREATE DATABASE x FROM y'),
+    'C01-branch-force': ('block', 'DROP BRANCH x FORCE'),
+    'C01-ddl-with-dropped': ('block', 'WITH MODULE m CREATE FUTURE f'),
+    'C01-scalar-final': ('block', 'CREATE FINAL SCALAR TYPE s EXTENDING str'),
+    'C01-reset-schema-target': ('block', 'RESET SCHEMA TO x'),
+    'C01-create-alias-reset-expr': ('block', 'CREATE ALIAS a { RESET EXPRESSION }'),
+    'C01-operator-abstract-commands': ('block', 'CREATE ABSTRACT INFIX OPERATOR std::`>=` (l: anytype, r: anytype) -> std::bool { CREATE ANNOTATION description := "x" }'),
+    'C01-migration-body-whitespace': ('block', 'CREATE MIGRATION m1 ONTO m0 { CREATE TYPE Foo; }'),
+    'C01-migration-body-comment-compact': ('block', 'CREATE MIGRATION m1 ONTO m0 { CREATE TYPE Foo; # c\n}'),
+    'C01-for-group-internal': ('fragment', 'FOR GROUP x USING y := 1 BY y IN g UNION r := g'),
+    'C01-alias-empty-body': ('sdl', 'alias default::Foo { }'),
+    'C01-empty-shape': ('block', 'SELECT sys::Branch { }'),
+    'C01-ddl-value-statement-bare': ('block', 'CREATE TYPE Foo { CREATE ANNOTATION description := (SELECT 1) }'),
+    'C01-describe': ('block', 'DESCRIBE OBJECT Foo'),
+    'C01-typeof-bare': ('block', 'CREATE TYPE Foo { CREATE LINK l: (TYPEOF x) { SET REQUIRED } }'),
+    'C01-overloaded-optional': ('sdl', 'type default::Foo { overloaded optional link l; }'),
+    'C01-operator-code-from-function': ('block', "CREATE INFIX OPERATOR std::`++` (l: array<anytype>, r: array<anytype>) -> array<anytype> { USING SQL FUNCTION 'array_cat'; }"),
+    'C01-cast-code': ('block', "CREATE CAST FROM std::int64 TO std::json { SET volatility := 'Immutable'; USING SQL FUNCTION 'to_jsonb'; USING SQL $$ SELECT 1 $$; }"),
+    'C01-update-empty-set': ('fragment', 'UPDATE Foo SET { }'),
+    'C01-sdl-constraint-on-without-params': ('sdl', 'abstract constraint default::c() on (distinct x) { }'),
+    'C01-config-insert-empty-shape': ('block', 'CONFIGURE SESSION INSERT Foo { }'),
+    'C01-splat-type-expr': ('fragment', 'x { (TYPEOF y).** }'),
+    'C01-function-using-sql-expression': ('block', 'CREATE FUNCTION f() -> std::int64 { USING SQL EXPRESSION; }'),
+}
+
+
+def _prio(fd):
+    return 0 if (fd.tag or fd.sig) else (1 if (fd.printed or fd.special) and not fd.feat else 2)
+
+
+FINDINGS.sort(key=_prio)       # structural / signature predicates first, feature-only predicates last
 
 
 def classify(case, res, f, listed):
@@ -458,3 +502,19 @@ if __name__ == '__main__':
         triage(sys.argv[2:])
     elif len(sys.argv) > 1 and sys.argv[1] == 'findings':
         print(json.dumps([fd.entry() for fd in FINDINGS], indent=1))
+    elif len(sys.argv) > 1 and sys.argv[1] == 'replays':
+        load_grammar()
+        cases = [(REPLAYS[k][0], REPLAYS[k][1], k) for k in REPLAYS]
+        outs = explore(cases)
+        for c, r in zip(cases, outs):
+            got = set()
+            for f in r.get('fail', []):
+                if f['mode'].startswith('info:'):
+                    continue
+                for fd in FINDINGS:
+                    if fd.matches(c, r, f):
+                        got.add(fd.id)
+                        break
+                else:
+                    got.add('UNRECOGNISED:' + f['kind'] + ':' + str(f.get('sig')))
+            print('ok ' if c[2] in got else 'BAD', c[2], 'acc=%s' % r.get('acc'), r.get('rej', ''), sorted(got - {c[2]}))
